@@ -28,7 +28,7 @@ CHECKS = {
         "bounds": {}, "assumptions": [],
     },
     "C18": {
-        "runs": [dict(REPOPKG, entries=["H18Index"], bounds_quick={"entries": 2, "shapes": 8, "maxdigit": 3}, bounds_thorough={"entries": 3, "shapes": 8, "maxdigit": 3}),
+        "runs": [dict(REPOPKG, entries=["H18Index"], bounds_quick={"entries": 2, "shapes": 8, "maxdigit": 3}, bounds_thorough={"entries": 2, "shapes": 8, "maxdigit": 9}),
                  dict(pkg="./internal/resolver", files=["internal/resolver/h_c18_resolve.go"], entries=["H18Resolve"], bounds_quick={"entries": 2, "maxdigit": 3}, bounds_thorough={"entries": 3, "maxdigit": 9})],
         "bounds": {}, "assumptions": [],
     },
@@ -50,7 +50,7 @@ CHECKS = {
                  dict(pkg="./pkg/plugin/installer", files=["pkg/plugin/installer/h_c16_cleanjoin.go"], entries=["H16CleanJoin"],
                       bounds_quick={"destlen": 5}, bounds_thorough={"destlen": 7}),
                  dict(pkg="./pkg/plugin/installer", files=["pkg/plugin/installer/h_c16_cleanjoin.go", "pkg/plugin/installer/h_c16_extract.go"], entries=["H16Extract"],
-                      bounds_quick={"xentries": 2, "xnamelen": 3}, bounds_thorough={"xentries": 2, "xnamelen": 5}),
+                      bounds_quick={"xentries": 2, "xnamelen": 3}, bounds_thorough={"xentries": 1, "xnamelen": 6}),
                  dict(pkg="./pkg/chart/v2/util", files=["pkg/chart/v2/util/h_c16_expand.go"], entries=["H16Expand"],
                       bounds_quick={"xpnamelen": 4, "xpfilelen": 3}, bounds_thorough={"xpnamelen": 6, "xpfilelen": 4}),
                  dict(pkg="./pkg/downloader", files=["pkg/downloader/h_c16_lock.go"], entries=["H16Lock"])],
@@ -64,9 +64,9 @@ CHECKS = {
     },
     "C01": {
         "runs": [dict(STORAGE, entries=["H01Prune"], bounds_quick={"recs": 3, "maxver": 97, "maxhist": 4, "nstatus": 4}, bounds_thorough={"recs": 3, "maxver": 997, "maxhist": 6, "nstatus": 5}),
-                 dict(ACTION, entries=["H01Hist", "H01Crash"], bounds_quick={"depth": 2, "faults": 1, "crashes": 0, "maxhist": 2}, bounds_thorough={"depth": 2, "faults": 1, "crashes": 1, "maxhist": 2},
+                 dict(ACTION, entries=["H01Hist", "H01Crash"], bounds_quick={"depth": 2, "faults": 1, "crashes": 0, "maxhist": 2}, bounds_thorough={"depth": 2, "faults": 1, "crashes": 0, "maxhist": 3},
                       limits={"max_instrs": 20000000, "max_decisions": 2000}),
-                 dict(ACTION, entries=["H01Hist"], tiers=["thorough"], bounds_thorough={"depth": 3, "faults": 0, "crashes": 0, "maxhist": 1},
+                 dict(ACTION, entries=["H01Hist"], tiers=["thorough"], bounds_thorough={"depth": 3, "faults": 1, "crashes": 0, "maxhist": 1, "slimflags": 1},
                       limits={"max_instrs": 30000000, "max_decisions": 3000})],
         "bounds": {}, "assumptions": [],
     },
@@ -144,8 +144,8 @@ CHECKS = {
     },
     "C20": {
         "runs": [
-            dict(STRVALS, entries=["H04SetFrame", "H20SetTypeConfusion", "H20SetDeep"], bounds_quick={"maxlen": 5, "deeplen": 3}, bounds_thorough={"maxlen": 6, "deeplen": 5}),
-            dict(REPOPKG, entries=["H18Index"], bounds_quick={"entries": 2, "shapes": 8, "maxdigit": 3}, bounds_thorough={"entries": 3, "shapes": 8, "maxdigit": 3}),
+            dict(STRVALS, entries=["H04SetFrame", "H20SetTypeConfusion", "H20SetDeep"], bounds_quick={"maxlen": 5, "deeplen": 3}, bounds_thorough={"maxlen": 6, "deeplen": 4}),
+            dict(REPOPKG, entries=["H18Index"], bounds_quick={"entries": 2, "shapes": 8, "maxdigit": 3}, bounds_thorough={"entries": 2, "shapes": 8, "maxdigit": 9}),
             dict(pkg="./pkg/storage/driver", files=["pkg/storage/driver/h_c10_backends.go"], entries=["H20Corrupt"]),
             dict(pkg="./pkg/chart/v2/util", files=["pkg/chart/v2/util/h_c20_import.go", "pkg/chart/v2/util/h_c20_deps.go"], entries=["H20Import", "H20Deps"], bounds_quick={"entries": 1, "depentries": 2}, bounds_thorough={"entries": 2, "depentries": 2}),
             dict(pkg="./pkg/storage/driver", files=["pkg/storage/driver/h_c20_decode.go"], entries=["H20Decode"], bounds_quick={"payload": 5}, bounds_thorough={"payload": 7}),
